@@ -263,7 +263,7 @@ func c20coverage(c *Ctx) {
 					// a list of struct nodes whose elements are rendered piecewise (the element itself never
 					// reaches the writer or its own Format): every child of each element must be covered in turn
 					if depth == 0 {
-					if est, ename, eflds := c20elemStruct(pk.Types, sname, fld); est != nil {
+						if est, ename, eflds := c20elemStruct(pk.Types, sname, fld); est != nil {
 							seenEl := map[*px.Sym]bool{}
 							for i := range p.Events {
 								e := &p.Events[i]
